@@ -77,11 +77,13 @@ macro_rules! impl_mean_acc {
             }
             fn extend_(&mut self, os: &[Ob]) {
                 let v: Vec<$f> = os.iter().map(|o| $input(*o)).collect();
-                StatisticsOps::extend(self, &v).unwrap();
+                // the container alternates with the chunk length: Vec, a view of unknown length, a view
+                // that announces only half of its elements
+                with_view!(v.len(), v, |d| StatisticsOps::extend(self, d).unwrap());
             }
             fn from_iter_(os: &[Ob]) -> Self {
                 let v: Vec<$f> = os.iter().map(|o| $input(*o)).collect();
-                <$ty<$f> as StatisticsOps<$f>>::from_iter(&v).unwrap()
+                with_view!(v.len() + 1, v, |d| <$ty<$f> as StatisticsOps<$f>>::from_iter(d).unwrap())
             }
             fn add_(self, o: Self) -> Self {
                 self + o
@@ -122,12 +124,12 @@ impl Acc for Paired<f64> {
     fn extend_(&mut self, os: &[Ob]) {
         let a: Vec<f64> = os.iter().map(|o| o.x).collect();
         let b: Vec<f64> = os.iter().map(|o| o.y).collect();
-        self.extend(&a, &b).unwrap();
+        with_view!(a.len(), a, |da| with_view!(a.len() / 3, b, |db| self.extend(da, db).unwrap()));
     }
     fn from_iter_(os: &[Ob]) -> Self {
         let t: Vec<(f64, f64)> = os.iter().map(|o| (o.x, o.y)).collect();
         let mut p = Paired::default();
-        p.extend_tuple(&t).unwrap();
+        with_view!(t.len() + 1, t, |d| p.extend_tuple(d).unwrap());
         p
     }
     fn add_(self, o: Self) -> Self {
@@ -164,12 +166,12 @@ impl Acc for Unpaired<f64> {
     fn extend_(&mut self, os: &[Ob]) {
         let a: Vec<f64> = os.iter().filter(|o| o.flag).map(|o| o.x).collect();
         let b: Vec<f64> = os.iter().filter(|o| !o.flag).map(|o| o.x).collect();
-        self.extend(&a, &b).unwrap();
+        with_view!(os.len(), a, |da| with_view!(os.len() / 3, b, |db| self.extend(da, db).unwrap()));
     }
     fn from_iter_(os: &[Ob]) -> Self {
         let a: Vec<f64> = os.iter().filter(|o| o.flag).map(|o| o.x).collect();
         let b: Vec<f64> = os.iter().filter(|o| !o.flag).map(|o| o.x).collect();
-        Unpaired::from_iter(&a, &b).unwrap()
+        with_view!(os.len() + 1, a, |da| with_view!(os.len() / 3 + 1, b, |db| Unpaired::from_iter(da, db).unwrap()))
     }
     fn add_(self, o: Self) -> Self {
         self + o
@@ -210,10 +212,12 @@ impl Acc for proportion::Stats {
     }
     fn extend_(&mut self, os: &[Ob]) {
         let v: Vec<bool> = os.iter().map(|o| o.flag).collect();
-        self.extend(&v);
+        with_view!(v.len(), v, |d| self.extend(d));
     }
     fn from_iter_(os: &[Ob]) -> Self {
-        os.iter().map(|o| o.flag).collect()
+        // by-value iterators of known and unknown length (filter, flat_map, take_while)
+        let v: Vec<bool> = os.iter().map(|o| o.flag).collect();
+        crate::lazy::unsized_iter(&v, v.len()).collect()
     }
     fn add_(self, o: Self) -> Self {
         self + o
